@@ -1,4 +1,44 @@
-// engine K harnesses for module hook 'prime_field' (included under cfg(kani) by /repo)
+// engine K — ff/prime_field.rs, module level (property C08): the generic `PrimeField::invert` and `batch_invert`
+// exercised exhaustively on the 31-element field. The unbounded statement for all three fields is the Verus
+// unit (verus/invert.py); this unit is its witness source and a cross-check on the unsubstituted code.
+use super::*;
+use crate::ff::U128Conversions;
+
+/// every non-zero element of Fp31 has a canonical multiplicative inverse: the 30 elements are enumerated
+/// concretely (the Euclid loop's symbolic 128-bit divisions do not finish otherwise), so this is exhaustive.
+#[kani::proof]
+#[kani::unwind(33)]
+fn c08_invert_fp31_exhaustive() {
+    kani::cover!(true);
+    let mut v = 1u32;
+    while v < 31 {
+        let a = Fp31::truncate_from(v);
+        let r = a.invert();
+        assert!(r.as_u128() < 31);
+        assert!((r.as_u128() * a.as_u128()) % 31 == 1);
+        v += 1;
+    }
+}
+
+/// batch_invert (N = 2) returns the element-wise inverses, for all 900 pairs of non-zero Fp31 elements (enumerated)
+#[kani::proof]
+#[kani::unwind(33)]
+fn c08_batch_invert_fp31_n2() {
+    kani::cover!(true);
+    let mut x = 1u32;
+    while x < 31 {
+        let mut y = 1u32;
+        while y < 31 {
+            let orig = [Fp31::truncate_from(x), Fp31::truncate_from(y)];
+            let mut xs = orig;
+            batch_invert(&mut xs);
+            assert!((xs[0].as_u128() * orig[0].as_u128()) % 31 == 1 && xs[0].as_u128() < 31);
+            assert!((xs[1].as_u128() * orig[1].as_u128()) % 31 == 1 && xs[1].as_u128() < 31);
+            y += 1;
+        }
+        x += 1;
+    }
+}
 
 #[cfg(test)]
 include!(concat!(env!("IPA_VERIF_DIR"), "/.build/playback/prime_field.rs"));
